@@ -30,7 +30,9 @@ Record robs := mkRobs {
 
 Inductive case :=
 | CDirect (cfg : config) (init : state) (ops : list dop) (obs : list dobs)
-| CRun (cfg : config) (init : state) (batches : list (list rrequest)) (obs : list robs).
+| CRun (cfg : config) (init : state) (batches : list (list (rrequest * behaviour))) (obs : list robs).
+    (* every request carries the client's behaviour towards its response; a response that is not
+       awaited is recorded as [(None, POffline)] *)
 
 (* ---- equality tests ------------------------------------------------------------------------------ *)
 
@@ -139,15 +141,27 @@ Definition snap_matches (ost : option state)
   | _, _, _ => false
   end.
 
-Fixpoint corr_run (cfg : config) (ost : option state) (bs : list (list rrequest)) (os : list robs) : bool :=
+(** what the client sees of each response: the response (with the echo for open-order calls)
+    when it waits for it, nothing — recorded as [(None, POffline)] — when it does not *)
+Definition expected_resps (brqs : list (rrequest * bool)) (resps : list rresp)
+  : list (option request * rresp) :=
+  map (fun x : (rrequest * bool) * rresp =>
+         if snd (fst x) then (echo_of (fst (fst x)), snd x) else (None, POffline))
+      (combine brqs resps).
+Definition aw_of (cfg : config) (brqs : list (rrequest * behaviour)) : list (rrequest * bool) :=
+  map (fun rb => (fst rb, awaited cfg (snd rb))) brqs.
+
+Fixpoint corr_run (cfg : config) (ost : option state) (bs : list (list (rrequest * bool)))
+  (os : list robs) : bool :=
   match bs, os with
   | [], [] => true
-  | rqs :: bs', o :: os' =>
+  | brqs :: bs', o :: os' =>
+    let rqs := map fst brqs in
     let '(ost1, out) := run cfg ost rqs in
     (* the two follow-up queries only re-apply the time of the last request *)
     let ost2 := option_map (fun st => tick cfg st (last_time rqs 0%Z)) ost1 in
     list_eqb (pair_eqb (option_eqb request_eqb) rresp_eqb)
-             (combine (map echo_of rqs) (map fst out)) (ro_resps o)
+             (expected_resps brqs (map fst out)) (ro_resps o)
     && events_eqb (flat_map snd out) (ro_events o)
     && snap_matches ost2 (ro_snap o) (ro_trades o) && ro_ok o
     && corr_run cfg ost2 bs' os'
@@ -157,7 +171,7 @@ Fixpoint corr_run (cfg : config) (ost : option state) (bs : list (list rrequest)
 Definition corr_b (c : case) : bool :=
   match c with
   | CDirect cfg init ops os => corr_direct cfg init ops os
-  | CRun cfg init bs os => corr_run cfg (Some init) bs os
+  | CRun cfg init bs os => corr_run cfg (Some init) (map (aw_of cfg) bs) os
   end.
 
 (* ---- the property's input requirement ---------------------------------------------------------- *)
@@ -182,7 +196,7 @@ Definition in_domain (c : case) : bool :=
       && Qc_leb 0%Qc (c_fee cfg) && forallb dop_in_domain ops
   | CRun cfg init bs _ =>
       wf_state cfg init && nodup_keys (map fst (s_bals init))
-      && Qc_leb 0%Qc (c_fee cfg) && forallb req_in_domain (opens_of (concat bs))
+      && Qc_leb 0%Qc (c_fee cfg) && forallb req_in_domain (opens_of (map fst (concat bs)))
   end.
 
 (* ---- prop_b: oracle on the observed behaviour -------------------------------------------------- *)
@@ -248,33 +262,54 @@ Fixpoint prop_direct (cfg : config) (o : ostate) (ops : list dop) (os : list dob
   | _, _ => false
   end.
 
+(** an order whose response the client did not wait for: the oracle decides acceptance from the
+    ledger specification alone and takes the order id from the announced fill *)
+Definition oracle_open_blind (cfg : config) (o : ostate) (req : request)
+  (nb : list (N * bal)) (nt : list trade) : option ostate :=
+  oracle_open cfg o req
+    (if spec_accepts cfg (os_led o) req
+     then match nt with [t] => ROpen (t_id t) 0%Z (r_qty req) | _ => RErr EKind end
+     else RErr EKind) nb nt.
+
 (** the requests of one batch against their responses; an accepted order owns the next two
-    events of the account stream (one balance, one trade, in any order), a rejected one none *)
-Fixpoint prop_batch (cfg : config) (o : ostate) (rqs : list rrequest)
+    events of the account stream (one balance, one trade, in any order), a rejected one none —
+    whether or not the client waited for the response *)
+Fixpoint prop_batch (cfg : config) (o : ostate) (brqs : list (rrequest * bool))
   (rs : list (option request * rresp)) (es : list event) : option (ostate * list event) :=
-  match rqs, rs with
+  match brqs, rs with
   | [], [] => Some (o, es)
-  | rq :: rqs', (_, resp) :: rs' =>
-    match rq_kind rq, resp with
-    | KOpen req, POpen res =>
-      let k := if accepted res then 2%nat else 0%nat in
-      match oracle_open cfg o req res (ev_bals (firstn k es)) (ev_trades (firstn k es)) with
-      | Some o' => prop_batch cfg o' rqs' rs' (skipn k es)
-      | None => None
+  | (rq, aw) :: rqs', (_, resp) :: rs' =>
+    if aw then
+      match rq_kind rq, resp with
+      | KOpen req, POpen res =>
+        let k := if accepted res then 2%nat else 0%nat in
+        match oracle_open cfg o req res (ev_bals (firstn k es)) (ev_trades (firstn k es)) with
+        | Some o' => prop_batch cfg o' rqs' rs' (skipn k es)
+        | None => None
+        end
+      | KOpen _, _ => None
+      | KSnapshot, PSnapshot bals _ _ | KBalances, PBalances bals =>
+        if ledger_is o bals then prop_batch cfg o rqs' rs' es else None
+      | KTrades since, PTrades ts =>
+        if trades_eqb (filter (fun t => Z.leb since (t_time t)) (os_fills o)) ts
+        then prop_batch cfg o rqs' rs' es else None
+      | KOrdersOpen, POrders _ | KCancel, _ => prop_batch cfg o rqs' rs' es
+      | _, _ => None
       end
-    | KOpen _, _ => None
-    | KSnapshot, PSnapshot bals _ _ | KBalances, PBalances bals =>
-      if ledger_is o bals then prop_batch cfg o rqs' rs' es else None
-    | KTrades since, PTrades ts =>
-      if trades_eqb (filter (fun t => Z.leb since (t_time t)) (os_fills o)) ts
-      then prop_batch cfg o rqs' rs' es else None
-    | KOrdersOpen, POrders _ | KCancel, _ => prop_batch cfg o rqs' rs' es
-    | _, _ => None
-    end
+    else
+      match rq_kind rq with
+      | KOpen req =>
+        let k := if spec_accepts cfg (os_led o) req then 2%nat else 0%nat in
+        match oracle_open_blind cfg o req (ev_bals (firstn k es)) (ev_trades (firstn k es)) with
+        | Some o' => prop_batch cfg o' rqs' rs' (skipn k es)
+        | None => None
+        end
+      | _ => prop_batch cfg o rqs' rs' es
+      end
   | _, _ => None
   end.
 
-Fixpoint prop_run (cfg : config) (o : ostate) (bs : list (list rrequest)) (os : list robs) : bool :=
+Fixpoint prop_run (cfg : config) (o : ostate) (bs : list (list (rrequest * bool))) (os : list robs) : bool :=
   match bs, os with
   | [], [] => true
   | rqs :: bs', ob :: os' =>
@@ -293,7 +328,7 @@ Fixpoint prop_run (cfg : config) (o : ostate) (bs : list (list rrequest)) (os : 
 Definition prop_b (c : case) : bool :=
   match c with
   | CDirect cfg init ops os => prop_direct cfg (ostate_init init) ops os
-  | CRun cfg init bs os => prop_run cfg (ostate_init init) bs os
+  | CRun cfg init bs os => prop_run cfg (ostate_init init) (map (aw_of cfg) bs) os
   end.
 
 Definition known_b (c : case) : N := 0%N.
